@@ -484,10 +484,10 @@ hypothesis (`C05_readData2_partial`). -/
 loop, `SkipSimpleRecord`, `PushPastImbedAggr`, `PushPastString`): for every byte string it ends with fuel `|bytes| + 2`,
 never un-reads and makes at most `4·(|bytes| + 1) + readCommentIters + 3` steps -/
 theorem C05_steps_createSubSuper (s : IS) :
-    ∃ r, createSubSuper C05.entNmArrGuard (s.rest.length + 2) s = .ok r ∧ r.s.m ≤ s.m ∧
+    ∃ r, createSubSuper C05.imbedAggrStaysInRecord C05.entNmArrGuard (s.rest.length + 2) s = .ok r ∧ r.s.m ≤ s.m ∧
       r.steps ≤ 4 * (s.rest.length + 1) + C05.readCommentIters + 3 := by
   have hm := IS.m_le s
-  obtain ⟨r, a, b, c⟩ := createSubSuper_ok C05.readCommentIters C05.entNmArrGuard (s.rest.length + 2) (by omega) s (by omega)
+  obtain ⟨r, a, b, c⟩ := createSubSuper_ok C05.readCommentIters C05.imbedAggrStaysInRecord C05.entNmArrGuard (s.rest.length + 2) (by omega) s (by omega)
   have := pot_le (R := C05.readCommentIters) s
   exact ⟨r, a, b, by omega⟩
 
@@ -498,12 +498,12 @@ resynchronisation loop, `CreateInstance` skeleton, external-mapping part loop, `
 token separators, comments, `SkipInstance`, `FindStartOfInstance`, string literals), never counts more than
 `_maxErrorCount + 1` instances it could not create, and aborts exactly when it has counted that many. -/
 theorem C05_readData1 (o : Oracle) (wsMode : Bool) (s : IS) :
-    ∃ r, readData1 o C05.entNmArrGuard C05.skipInstanceSkipsComments wsMode C05.readCommentIters C05.maxErrorCount
+    ∃ r, readData1 o C05.imbedAggrStaysInRecord C05.entNmArrGuard C05.skipInstanceSkipsComments wsMode C05.readCommentIters C05.maxErrorCount
         (s.rest.length + 2) s = .ok r ∧
       r.s.m ≤ s.m ∧
       r.steps ≤ 54 * (s.rest.length + 1) + C05.readCommentIters + 23 ∧
       r.notCreated ≤ C05.maxErrorCount + 1 ∧ (r.aborted = true ↔ r.notCreated = C05.maxErrorCount + 1) :=
-  readData1_ok o _ _ wsMode _ _ s
+  readData1_ok o _ _ _ wsMode _ _ s
 
 /-- Pass 2 (`ReadData2`) is the same loop around `ReadInstance`.  For **every** per-instance reader `ri` that is a stage
 — it returns, never un-reads, and its steps are paid by what it consumes up to a constant `K` (the attribute readers
@@ -674,12 +674,12 @@ steps over all nesting levels. -/
 theorem C05_appendFile_pass1_partial (o : Oracle) (known : List Byte → Bool) (hk : known [] = false)
     (rdh : List Byte → IS → Out LoopRes) (Kh : Nat) (hKh : 1 ≤ Kh) (goOn : Bool) (s : IS)
     (hrd : ∀ kw, StageOk C05.readCommentIters (rdh kw) Kh (s.rest.length + 1)) :
-    ∃ r, appendFile1 o known rdh C05.entNmArrGuard C05.skipInstanceSkipsComments goOn C05.readCommentIters C05.findHeaderGetlineN
+    ∃ r, appendFile1 o known rdh C05.imbedAggrStaysInRecord C05.entNmArrGuard C05.skipInstanceSkipsComments goOn C05.readCommentIters C05.findHeaderGetlineN
         C05.findHeaderExit C05.maxErrorCount (s.rest.length + 2) s = .ok r ∧ r.s.m ≤ s.m ∧
       r.steps ≤ (Kh + 54) * (s.rest.length + 1) + C05.readCommentIters + Kh + 36 := by
   have hx : C05.findHeaderExit = .notGood := by decide
   rw [hx]
-  exact appendFile1_ok o known rdh Kh hKh hk _ _ goOn _ _ _ s hrd
+  exact appendFile1_ok o known rdh Kh hKh hk _ _ _ goOn _ _ _ s hrd
 
 /-- Pass 2 of `AppendFile` — `FindDataSection`, `ReadData2`, the comparison of the two instance counts, the end-of-file
 keyword — for every per-instance reader `ri` that is a stage with constant `K`: it ends with fuel `|bytes| + 2`, never
